@@ -1,6 +1,6 @@
 #!/bin/bash
 # usage: tools_confirm_seed.sh <prop> <X>  — confirms demo passes without and fails with the patch; stores under /verif/seeded/<prop><X>/
-P=$1; X=$2; SRC=/tmp/seed/$P/SEED/$X; ID=$P$X
+P=$1; X=$2; SRC=${SEEDROOT:-/tmp/seed}/$P/SEED/$X; ID=$P$X
 WT=/tmp/seedconf/$ID; rm -rf $WT; mkdir -p /tmp/seedconf
 git -C /repo worktree add -q --detach $WT HEAD || exit 3
 DEMOS=$(ls $SRC/*.rs 2>/dev/null)
